@@ -36,10 +36,13 @@ def wrap_c16(pid, tier, seed):
     binp = build_wrap()
     if binp is None:
         return {"inconclusive": ["wrap build (overflow-checks off) failed"]}
-    reports, problems = run_shards(binp, pid, tier, seed, tag="wrap")
+    reports, problems = run_shards(binp, pid, tier, seed, tag="wrap", hang_limit_s=300)
     merged = merge_reports(reports)
     res = _prefixed(merged, "wrap-build")
-    res["inconclusive"] = list(res["inconclusive"]) + [p["why"] for p in problems]
+    res["violations"] = list(res["violations"]) + [
+        {"sig": "wrap-build:did-not-return:" + p.get("stratum", "unknown"), "detail": p["why"], "stratum": p.get("stratum", ""),
+         "case": p.get("case", 0), "input_hex": ""} for p in problems if p.get("hang")]
+    res["inconclusive"] = list(res["inconclusive"]) + [p["why"] for p in problems if not p.get("hang")]
     res["coverage"] = {"build": "release, overflow-checks=off, debug-assertions=off, --cfg elf_verif_hooks", "shards": len(reports),
                        "evaluations": merged["evaluations"]}
     return res
